@@ -1,3 +1,4 @@
 import QP.Base
 import QP.Props.C13
 import QP.Props.C14
+import QP.Props.C19
